@@ -1,7 +1,7 @@
 (* C07 — property theorems only. *)
 From Coq Require Import MSets.MSetPositive FSets.FMapPositive.
 From SwayV Require Import Base.Util Asm.Model Asm.Erase Asm.Delete Asm.Inplace C08.Spec C08.Model
-  C07.Model C07.Spec C07.Proofs C07.ProofsInplace C07.ProofsDce C07.ProofsCfg Vm.Alu C07.CpModel C07.CpProofs C07.CpStep.
+  C07.Model C07.Spec C07.Proofs C07.ProofsInplace C07.ProofsDce C07.ProofsCfg Vm.Alu C07.CpModel C07.CpProofs C07.CpStep C07.CpSound.
 Local Open Scope N_scope.
 
 (* liveness_analysis (model): the table it returns contains every register that is read before
@@ -143,13 +143,21 @@ Example C07_example_seqjump :
   [NOOP_OP; mkOp [] [] [] true (KLabel 0); mkOp [1000] [] [] true (KOther 1 [OReg 1000])].
 Proof. vm_compute. reflexivity. Qed.
 
-(* ---- constant_propagate: per-run validator (C07/CpModel.v) ----
-   Full statement wanted (C07_cp_validator_sound): cp_check before after = [] -> both programs run
-   identically on the interpreted-ALU machine from every entry state.  Proved: every justification
-   the validator uses (folding, identities, commutation), and that an accepted POSITION executes
-   identically in both programs whenever the known-value map holds of the state.  NOT proved: that
-   the map the walk threads through the program (transfer_kv, reset at jump-target labels) holds at
-   every position reached (kill/kset soundness along the walk). *)
+(* ---- constant_propagate: per-run validator (C07/CpModel.v) ---- *)
+
+(* END TO END: an (enter, exit) pair the validator accepts runs identically (same states at every
+   step, both stop together) on the machine with the interpreted ALU fragment (Vm.Alu) and
+   arbitrary semantics for every other op, from every entry state with $zero = 0 and $one = 1, as
+   long as register values stay below 2^64 along the run (as on the VM).  The known-value map the
+   walk threads through the program holds at every reached position: it is reset at jump-target
+   labels, and along fall-through the transfer function is sound for one machine step.
+   Uses functional extensionality (register files are functions). *)
+Theorem C07_cp_validator_sound : forall M semA call_sem before after, cp_check before after = [] ->
+  forall n (st : state M), pc st = 0%nat -> rf st R_ZERO = 0 -> rf st R_ONE = 1 ->
+  (forall k, (k <= n)%nat -> res_bounded (runA M semA call_sem after k st)) ->
+  runA M semA call_sem before n st = runA M semA call_sem after n st.
+Proof. exact cp_validator_sound. Qed.
+Print Assumptions C07_cp_validator_sound.
 
 (* (a) a folded constant is what the VM computes under every flag setting: no trap, $of = $err = 0 *)
 Theorem C07_cp_fold_sound : forall op l r c, fold_const op l r = Some c ->
